@@ -1,4 +1,5 @@
 import FuModel.Spec.RunRef
+import FuModel.Proofs.ExecOnceWalk
 
 /-!
 # C09 — -exec … ; : one run per file, {} substituted, argv intact, true iff 0
@@ -98,5 +99,23 @@ theorem C09_one_run (start : Bytes) (v : Visit Attr) (dir : Bool) (cmd : Bytes) 
   cases s.gs.script <;> simp
 
 example : substArg [97, 47, 98] [120, 123, 125, 121, 123, 125, 123] = [120, 97, 47, 98, 121, 97, 47, 98, 123] := by decide
+
+/-- **Whole starting point** for `-exec`/`-execdir CMD ARGS ;`: for an arbitrary expression whose
+    only command-running primary is this action, the commands started by `process_dir` over the
+    real walk are those started before followed by a subsequence, in visit order, of "the command
+    of this entry" (`eventOf`: argument vector with `{}` substituted, working directory) over the
+    entries of the starting point — at most one run per entry, none for an entry that is not
+    visited, none reordered, none with another entry's path.  Proof in `Proofs/ExecOnceWalk.lean`
+    (weighted relation lemma over the matcher tree, subsequence lemma over the traversal, C02's
+    refinement). -/
+theorem C09_whole_walk (dir : Bool) (cmd : Bytes) (tmpl : List Bytes) (start : Bytes)
+    (c : Config) (m : FuModel.Find.Expr.M Prim) (root : Node Attr) (g : GS)
+    (hall : m.AllP (SoleOnce dir cmd tmpl)) (hone : m.weight wT ≤ 1)
+    (hwalk : ((refCfg c).depthFirst = false ∧ PruneOk (refCfg c) (evalEntry m start)) ∨
+             ((refCfg c).depthFirst = true ∧ ¬ HRootLink (refCfg c) (if c.sorted then sortNode root else root))) :
+    let n := if c.sorted then sortNode root else root
+    ∃ L, (processDir c m start (some root) g).gs.execs = g.execs ++ L ∧
+      L.Sublist ((visitsN (refCfg c) [] 0 n).map (eventOf dir cmd tmpl start)) :=
+  whole_walk_once dir cmd tmpl start c m root g hall hone hwalk
 
 end FuModel.Find.Run
